@@ -56,6 +56,7 @@ type ProgResult struct {
 	Kinds     map[string]map[string]int // form -> kind -> count
 	Unsupp    map[string]int
 	Features  map[string]int
+	SameAs    map[string]string // form -> earlier form with textually identical IR
 	Panics    int
 	NIRFuncs  int
 	BuildSecs float64
@@ -139,9 +140,12 @@ func process(name, origin, src string, seed uint64, work string, ncases int, goe
 
 	// (b) IR in four forms (built first: type ids used by the output parser come from the tables)
 	var vt strings.Builder
-	vt.WriteString("From Coq Require Import List ZArith NArith PArith Bool.\nImport ListNotations.\nRequire Import Verif.Model.C01_IRSem Verif.Model.C01_Check Verif.Model.C01_SSA.\nOpen Scope Z_scope.\n\n")
 	fmt.Fprintf(&vt, "(* program %s (%s), seed %d *)\n", name, origin, seed)
+	pfx := name + "_"
 	var zeros []string
+	seenText := map[string]string{}
+	sharedFns := map[string]string{}
+	res.SameAs = map[string]string{}
 	for _, fm := range forms {
 		prog := ir.NewProgram(fset, fm.Mode|ir.BareInits)
 		p := prog.CreatePackage(pkg, files, info, true)
@@ -168,8 +172,16 @@ func process(name, origin, src string, seed uint64, work string, ncases int, goe
 				zeros = append(zeros, z)
 			}
 		}
-		vt.WriteString(s.Program("prog_" + fm.Name))
-		vt.WriteString("\n")
+		text := s.Program("prog_X", pfx, sharedFns, &vt)
+		if prev, ok := seenText[text]; ok {
+			// textually identical IR (after dropping pseudo-instructions): same behaviour, evaluated once
+			res.SameAs[fm.Name] = prev
+			fmt.Fprintf(&vt, "(* %sprog_%s is identical to %sprog_%s *)\n\n", pfx, fm.Name, pfx, prev)
+		} else {
+			seenText[text] = fm.Name
+			vt.WriteString(strings.Replace(text, "Definition prog_X", "Definition "+pfx+"prog_"+fm.Name, 1))
+			vt.WriteString("\n")
+		}
 		res.Kinds[fm.Name] = s.Kinds
 		for k, v := range s.Unsupp {
 			res.Unsupp[k] += v
@@ -207,8 +219,8 @@ func process(name, origin, src string, seed uint64, work string, ncases int, goe
 	}
 	os.Remove(filepath.Join(dir, "p.exe"))
 
-	fmt.Fprintf(&vt, "Definition zeros : list value := [%s].\n\n", strings.Join(zeros, "; "))
-	vt.WriteString("Definition cases : list case := [\n")
+	fmt.Fprintf(&vt, "Definition %szeros : list value := [%s].\n\n", pfx, strings.Join(zeros, "; "))
+	fmt.Fprintf(&vt, "Definition %scases : list case := [\n", pfx)
 	for i := range cases {
 		sep := ";"
 		if i == len(cases)-1 {
@@ -225,10 +237,13 @@ func process(name, origin, src string, seed uint64, work string, ncases int, goe
 		}
 		res.CaseIn = append(res.CaseIn, strings.Join(ins, "; "))
 	}
-	vt.WriteString("].\n\nDefinition fuel : nat := N.to_nat 300000.\n")
+	vt.WriteString("].\n\n")
 	for _, fm := range forms {
-		fmt.Fprintf(&vt, "Definition R_%s := Eval vm_compute in run_form fuel prog_%s 0 zeros cases.\nPrint R_%s.\n", fm.Name, fm.Name, fm.Name)
-		fmt.Fprintf(&vt, "Definition S_%s := Eval vm_compute in ssa_bad_funcs prog_%s.\nPrint S_%s.\n", fm.Name, fm.Name, fm.Name)
+		if _, dup := res.SameAs[fm.Name]; dup {
+			continue
+		}
+		fmt.Fprintf(&vt, "Definition %sR_%s := Eval vm_compute in run_form fuel %sprog_%s 0 %szeros %scases.\nPrint %sR_%s.\n", pfx, fm.Name, pfx, fm.Name, pfx, pfx, pfx, fm.Name)
+		fmt.Fprintf(&vt, "Definition %sS_%s := Eval vm_compute in ssa_bad_funcs %sprog_%s.\nPrint %sS_%s.\n", pfx, fm.Name, pfx, fm.Name, pfx, fm.Name)
 	}
 	res.VText = vt.String()
 	res.NCases = len(cases)
@@ -261,6 +276,7 @@ func main() {
 	type job struct {
 		name, origin, src string
 		seed              uint64
+		feat              map[string]int
 	}
 	var jobs []job
 	if *corpus != "" {
@@ -268,14 +284,15 @@ func main() {
 		sort.Strings(ms)
 		for _, m := range ms {
 			b := hx.Must(os.ReadFile(m))
-			jobs = append(jobs, job{"c_" + strings.TrimSuffix(filepath.Base(m), ".go"), "corpus", string(b), *seed})
+			jobs = append(jobs, job{"c_" + strings.TrimSuffix(filepath.Base(m), ".go"), "corpus", string(b), *seed, nil})
 		}
 	}
 	rnd := hx.NewRand(*seed)
 	for i := 0; i < *nprog; i++ {
 		ps := rnd.Uint64()
 		g := newGen(ps)
-		jobs = append(jobs, job{fmt.Sprintf("g%d_%d", *seed, i), "generated", g.Program(), ps})
+		src := g.Program()
+		jobs = append(jobs, job{fmt.Sprintf("g%d_%d", *seed, i), "generated", src, ps, g.Feat})
 	}
 	if *dump != "" {
 		for _, j := range jobs {
@@ -293,6 +310,7 @@ func main() {
 			sem <- struct{}{}
 			defer func() { <-sem }()
 			results[i] = process(j.name, j.origin, j.src, j.seed, *work, *ncases, goenv)
+			results[i].Features = j.feat
 		}(i, j)
 	}
 	wg.Wait()
